@@ -4,7 +4,7 @@ import numpy as np
 from lib import common as C, models as M
 
 GEN = ['BlockFacts', 'MultiplyBasis']
-IMPORTS = ['C03/basis_product', 'C03/mul_den', 'C03/rs_matrix_den', 'C03/rmatmul_den', 'C03/add_den', 'C03/dense_add_den', 'C14/compose_is_block_product', 'C14/apply_is_block_matvec', 'C14/pack_unpack_index', 'C05/ge_solve_horizon_T', 'C07/dag_steady_state_fixed_point']
+IMPORTS = ['C03/basis_product', 'C03/mul_den', 'C03/rs_matrix_den', 'C03/rmatmul_den', 'C03/add_den', 'C03/dense_add_den', 'C14/compose_is_block_product', 'C14/apply_is_block_matvec', 'C14/pack_unpack_index', 'C05/ge_solve_horizon_T', 'C07/dag_steady_state_fixed_point', 'C03/prune_thresholds']
 TRUSTED = ['the topological sort returns a well-formed evaluation order (C15)', 'JacobianDict compose/update (C14), sparse operator algebra (C03)']
 ASSUMPTIONS = ['the chain-rule theorem is about the abstract forward accumulation; the tie is (a) structural facts extracted from combined_block.py/block.py and '
                '(b) exact correspondence on generated linear contemporaneous models at T=1 (integer coefficients)',
@@ -323,7 +323,7 @@ def check_options():
 def oracle(ctx, hints, broken):
     viol, n = [], 0
     deep = ctx['tier'] == 'thorough' or bool(broken)
-    for f in (lambda: check_dag(ctx['rng']), lambda: check_shift_chains(ctx['rng'], 80 if deep else 12), lambda: check_jacdict_block(ctx['rng']), check_options):
+    for f in (lambda: check_dag(ctx['rng']), lambda: check_shift_chains(ctx['rng'], 80 if deep else 12), lambda: check_jacdict_block(ctx['rng']), check_options, M.check_small_units):
         try:
             v, k = f()
         except Exception as ex:
